@@ -347,6 +347,14 @@ def shrink_mismatch(ctx, c, impl_accepts, rounds=120):
 def check_error(ctx, c, real, err):
     """both reject: the model's error position and class (UnexpectedEOF / UnexpectedToken) are the real parser's"""
     pos, cls = real[1], (real[2] if len(real) > 2 else "?")
+    if err.get("msg") == "fuel":
+        # the model's loops take fuel (token count + 1); `fail "fuel"` is an artefact of the model, never an error of the code.
+        # Unreachability is proved for the lexer (lex_fuel_sufficient) but only STATED for the parser
+        # (Props/C01_lazy.lean: ParseFuelSufficientStatement): if it ever surfaces, the model is wrong - reported.
+        ctx.fail("corr:model-fuel-exhausted:%s" % c.entry, "the parser model ran out of fuel (model artefact)",
+                 detail(c, model=err), kind="correspondence")
+        return False
+    ctx.extra["parser_model_rejections_without_fuel_artefact"] = ctx.extra.get("parser_model_rejections_without_fuel_artefact", 0) + 1
     if cls not in ("UnexpectedEOF", "UnexpectedToken"):
         ctx.stat("error-class=%s(not compared)" % cls)      # a lexer error: not produced by the token-level parser
         return True
